@@ -201,6 +201,9 @@ func (c *Ctx) genWire(depth int, inStream bool) *wire {
 			v = 9223372036854775807
 		case 1:
 			v = -9223372036854775807
+			if c.Rng.IntN(2) == 0 {
+				v = -9223372036854775808 // MinInt64 is a well-formed integer reply too
+			}
 		case 2:
 			v = int64(c.Rng.Uint64() >> 1)
 		}
@@ -527,6 +530,13 @@ func runResp(c *Ctx) {
 					bigCase(c, t, n, 1+c.Rng.IntN(200), nested, []int{4096, 1 << 19}[c.Rng.IntN(2)], mode)
 				}
 			}
+		}
+	}
+	for _, v := range []int64{-9223372036854775808, -9223372036854775807, 9223372036854775807, 0, -1} {
+		for _, w := range []*wire{{kind: "int", v: v}, {kind: "arr", t: '*', xs: []*wire{{kind: "int", v: v}, {kind: "int", v: 7}}}} {
+			var o bytes.Buffer
+			w.enc(&o)
+			respCase(c, o.Bytes(), w.value("-"), true, false)
 		}
 	}
 	respCase(c, []byte("$?\r\n;268435456\r\n"+strings.Repeat("a", 70000)), "", true, true)
